@@ -22,6 +22,7 @@ import (
 	"strconv"
 	"strings"
 	"time"
+	"unicode/utf8"
 
 	"fortio.org/log"
 	"grol.io/grol/ast"
@@ -1016,6 +1017,109 @@ func registerPressure(c *Ctx) {
 	}
 }
 
+// ---------------------------------------------------------------- slicing and indexing NON-ASCII strings
+// Length, negative-index resolution, the default right bound and the clamp of x[l:r] are all in BYTES; whatever is
+// sliced must be the byte string too.  Strings with multi-byte runes (and invalid UTF-8) of several byte lengths, every
+// slice / index form, bounds derived from len(s), directly, through variables, references and register parameters.
+// Direct oracle besides "no panic": a string result is a contiguous byte window of the original; s[0:len(s)] and s[0:]
+// are the original.
+type ustr struct {
+	lit string // grol source of the string expression
+	val string // its value
+}
+
+func unicodeStrings() []ustr {
+	base := []string{"é", "héllo", "日本語", "日本語のテキスト", "héllo wörld, grüß dich, señor, ça va très bien aujourd'hui",
+		"👍🏽x", "aé日👍", "ßßßßßßßßßßßßßßßßßßßßßßßßßßßßßßßßß"}
+	var out []ustr
+	for _, b := range base {
+		out = append(out, ustr{strconv.Quote(b), b})
+	}
+	// strconv.Quote escapes nothing here except quotes; keep the raw UTF-8 in the source
+	for i := range out {
+		out[i].lit = "\"" + strings.ReplaceAll(out[i].val, "\"", "\\\"") + "\""
+	}
+	for _, m := range []struct {
+		b string
+		n int
+	}{{"日本語のテキスト", 8}, {"é", 40}, {"héllo", 3}, {"aé日👍", 20}} {
+		out = append(out, ustr{"(\"" + m.b + "\"*" + strconv.Itoa(m.n) + ")", strings.Repeat(m.b, m.n)})
+	}
+	out = append(out, ustr{`"\xff\xfeab\xc3"`, "\xff\xfeab\xc3"}, ustr{`("\xe6\x97"*30)`, strings.Repeat("\xe6\x97", 30)})
+	return out
+}
+
+func unicodeSlices(c *Ctx) {
+	o := evalOpts{maxDepth: 200, dur: 2 * time.Second}
+	isWindow := func(orig string, r outcome, gen, src string) {
+		if r.class != "V" {
+			return
+		}
+		if sv, ok := r.val.(object.String); ok {
+			if !strings.Contains(orig, sv.Value) || len(sv.Value) > len(orig) {
+				c.Fail("string-slice-not-a-window:"+gen, src, fmt.Sprintf("result %q (%d bytes) is not a byte window of the %d-byte original", trunc(sv.Value, 60), len(sv.Value), len(orig)))
+			}
+		}
+	}
+	same := func(orig string, r outcome, gen, src string) {
+		if r.class == "V" {
+			if sv, ok := r.val.(object.String); !ok || sv.Value != orig {
+				c.Fail("string-slice-not-identity:"+gen, src, fmt.Sprintf("got %.60q, want the original (%d bytes)", r.insp, len(orig)))
+			}
+		} else if r.class == "E" {
+			c.Fail("string-slice-not-identity:"+gen, src, "error: "+trunc(r.insp, 100))
+		}
+	}
+	bounds := []string{"0", "1", "2", "3", "5", "(-1)", "(-2)", "(-3)", "(-7)", "len(s)", "len(s)-1", "len(s)-3", "len(s)/2", "len(s)+5", "(-len(s))", "(-len(s)-2)", "1000", "(-1000)"}
+	placements := func(u ustr, e string) []string {
+		return []string{
+			"s=" + u.lit + "; " + e,
+			"s=" + u.lit + "; func tf(){ " + e + " }; tf()",
+			"func tf(s){ " + e + " }; tf(" + u.lit + ")",
+		}
+	}
+	for _, u := range unicodeStrings() {
+		// identities
+		for _, e := range []string{"s[0:len(s)]", "s[0:]", "s[(-len(s)):]", "s[0:len(s)+9]", "s[0:len(s)/2]+s[len(s)/2:]", "s[0:1]+s[1:]", "s[0:len(s)-1]+s[(-1):]"} {
+			for _, src := range placements(u, e) {
+				same(u.val, check(c, "ustr:identity", src, o), "identity", src)
+			}
+		}
+		// every pair of bounds (quick: a deterministic half), open right bound, single index, first/rest chains
+		for ai, a := range bounds {
+			for bi, b := range bounds {
+				if !c.Thorough() && (ai+bi)%2 == 1 {
+					continue
+				}
+				e := "s[" + a + ":" + b + "]"
+				pl := placements(u, e)
+				src := pl[(ai+bi)%len(pl)]
+				isWindow(u.val, check(c, "ustr:slice", src, o), "slice", src)
+			}
+			for _, e := range []string{"s[" + a + ":]", "s[" + a + "]", "s[" + a + ":][0:2]", "rest(s)[" + a + ":]"} {
+				pl := placements(u, e)
+				src := pl[ai%len(pl)]
+				r := check(c, "ustr:open", src, o)
+				if !strings.Contains(e, "rest(") || utf8.ValidString(u.val) { // rest() re-encodes invalid UTF-8 as U+FFFD by design
+					isWindow(u.val, r, "open", src)
+				}
+			}
+			// bounds as register parameters and as references
+			src := "func tf(s,a,b){ s[a:b] }; s=" + u.lit + "; tf(s," + a + ",len(s)); tf(s,0," + a + ")"
+			isWindow(u.val, check(c, "ustr:regparam", src, o), "regparam", src)
+			src = "s=" + u.lit + "; a=" + a + "; func tf(){ s[a:] }; tf()"
+			isWindow(u.val, check(c, "ustr:ref", src, o), "ref", src)
+		}
+		for _, e := range []string{"first(s)", "rest(s)", "rest(rest(s))", "first(rest(s))", "first(s[1:])", "rest(s[0:len(s)-1])", "first(s)+rest(s)",
+			"n=0; for ch=s {n=n+len(ch)}; n", "t=\"\"; for ch=s {t=t+ch}; t", "s[1:][1:][1:]", "len(s[1:])", "len(s[(-3):])", "runes(s[2:])", "s[len(s)-1]", "s[len(s)]",
+			"i=0; t=\"\"; for i<len(s) {t=t+s[i:i+1]; i=i+1}; t", "for i=0:len(s) {s[i:]}", "for i=0:len(s) {s[0:i]}", "for i=0:len(s) {s[i:len(s)-i]}"} {
+			for _, src := range placements(u, e) {
+				check(c, "ustr:forms", src, o)
+			}
+		}
+	}
+}
+
 // ---------------------------------------------------------------- wild grammar-generated programs
 type wild struct {
 	c     *Ctx
@@ -1399,7 +1503,10 @@ func runC07(c *Ctx) {
 		"r=0; for i=2 {for j=2 {for k=2 {for l=2 {for m=2 {for o=2 {for p=2 {for u=2 {for v=2 { r=r+i+v }}}}}}}}}; r",
 		// macro bodies are evaluated in their own state: output, nested expressions, function calls (found with C09, repaired)
 		"m=macro(a){println(1); quote(1)}; m(1)", "m=macro(a){x=1+2; quote(unquote(a))}; m(1)", "m=macro(a){func g(){1}; g(); quote(1)}; m(1)",
-		"m=macro(a){print(a); log(a); quote(unquote(a))}; m(1+2)", `unjson("println(1); [1,{2:3}]")`}
+		"m=macro(a){print(a); log(a); quote(unquote(a))}; m(1+2)", `unjson("println(1); [1,{2:3}]")`,
+		// range index on non-ASCII strings: byte bounds on a byte string (seeded regression 3)
+		`s="日本語のテキスト"*8; s[0:len(s)]`, `s="日本語のテキスト"*8; s[-3:]`, `"héllo wörld, grüß dich, señor, ça va très bien aujourd'hui"[1:]`,
+		`func tf(s,a){s[a:]}; tf("日本語のテキスト"*8, 3)`}
 	for _, s := range corpus {
 		check(c, "corpus", s, std)
 		evalOneAgrees(c, s)
@@ -1562,6 +1669,9 @@ func runC07(c *Ctx) {
 	cacheArgs(c)
 	registerPressure(c)
 
+	// 3e. slicing / indexing of non-ASCII strings (byte semantics everywhere)
+	unicodeSlices(c)
+
 	// 4. builtin / extension sweep
 	sweep(c)
 
@@ -1606,4 +1716,11 @@ func runC07(c *Ctx) {
 		}
 	}
 	c.Extra["evaluated_programs"] = evalCount
+}
+
+func trunc(s string, n int) string {
+	if len(s) > n {
+		return s[:n]
+	}
+	return s
 }
